@@ -97,6 +97,7 @@ class MultiTrackLargeVocabularyNotelikeTokeniser:
         prv_value = state_dict.get("prv_value", -1)
         prv_velocity = state_dict.get("prv_velocity", -1)
         prv_shift = state_dict.get("cur_time", 0)
+        cur_bar_has_notes = False
 
         # Sanity check
         if not len(sequences_bar) == self.num_tracks:
@@ -108,6 +109,7 @@ class MultiTrackLargeVocabularyNotelikeTokeniser:
             nonlocal cur_time
             nonlocal cur_time_bar
             nonlocal cur_bar_capacity_remaining
+            nonlocal cur_bar_has_notes
             buf_rest = rest
 
             nxt_rest = min(buf_rest, cur_bar_capacity_remaining)
@@ -137,6 +139,7 @@ class MultiTrackLargeVocabularyNotelikeTokeniser:
                         tokens.append(TokenisationPrefixes.BAR.value)
                     cur_time_bar = 0
                     cur_bar_capacity_remaining = cur_bar_capacity_total
+                    cur_bar_has_notes = False
 
                 nxt_rest = min(buf_rest, cur_bar_capacity_remaining)
 
@@ -202,6 +205,7 @@ class MultiTrackLargeVocabularyNotelikeTokeniser:
                 prv_track = msg_channel
                 prv_value = msg_value
                 prv_velocity = msg_velocity
+                cur_bar_has_notes = True
             # Handle time signatures
             elif msg_type == MessageType.TIME_SIGNATURE:
                 if cur_time_bar > 0:
@@ -230,7 +234,7 @@ class MultiTrackLargeVocabularyNotelikeTokeniser:
                     f"{TokenisationPrefixes.TIME_SIGNATURE.value}_{scaled:02}_{DEFAULT_TIME_SIGNATURE_NUMERATOR:02}")
 
         # Close bar and handle rest buffer
-        if cur_time_bar > 0 and cur_bar_capacity_remaining > 0:
+        if (cur_time_bar > 0 or cur_bar_has_notes) and cur_bar_capacity_remaining > 0:
             _apply_rest(cur_bar_capacity_remaining)
 
         # Update state dictionary
